@@ -25,6 +25,13 @@ class TheCheck(TreeCheck):
         for seq in itertools.product(alpha, repeat=3 if not big else 4):
             ops += ["new 0"] + list(seq) + ["size", "min", "max"] + ["get %s" % hexs(k) for k in ks]
         sts.append(Stream("exhaustive-seq", ops, history=True))
+        # a put whose allocation fails leaves errno = ENOMEM behind: the following puts must still
+        # report success (the harness also plants ENOMEM in errno before every put/get/remove)
+        ks = [b"e%02d\0" % i for i in range(6)]
+        ops = ["new 0"]
+        for i, k in enumerate(ks):
+            ops += ["fault %d" % (i % 3 + 1), "put %s 7676" % hexs(k), "put %s 77" % hexs(k), "put %s 78" % hexs(ks[0]), "get %s" % hexs(k), "size"]
+        sts.append(Stream("stale-errno", ops, history=True))
         for mode in (0, 1, 2):
             n = 1500 if not big else 20000
             kg = None
